@@ -126,8 +126,13 @@ class Clause:
         # an ensures clause whose label list contains 'light' is kept when a caller uses the abstracted
         # contract `callee/light` (a weaker postcondition than the one proved: sound for the caller)
         self.light = False
+        self.top = False      # 'top': clause only for the function's own proof (mentions entry-state witness variables)
         if label:
             parts = [l.strip() for l in label.split(',')]
+            if 'top' in parts:
+                self.top = True
+                parts = [l for l in parts if l != 'top']
+                label = ','.join(parts) or None
             if 'light' in parts:
                 self.light = True
                 parts = [l for l in parts if l != 'light']
